@@ -180,6 +180,84 @@ fn render(a: &Act) -> String {
     }
 }
 
+/// redefine — "a later definition replaces an earlier one", directly: for every type and every ordered pair (v1, v2)
+/// of a value pool that contains near-equal and print-alike twins, the program defines X as v1, redefines it as v2, then
+/// uses X and asks for its definition; every step is judged in the state reached (as in C06 conform).
+fn redefine(ctx: &mut Ctx, real: &mut Real) {
+    let body = |f: f32| Tree::L(vec![Tree::F(f), Tree::ins("FLOAT.+")]);
+    let code_pool = vec![Tree::I(7), Tree::L(vec![Tree::F(1.0001), Tree::name("Y")]), Tree::L(vec![Tree::F(1.0004), Tree::name("Y")]), body(0.2501), body(0.2499), Tree::name("Y"), Tree::FV(vec![1.0001, 2.0]), Tree::FV(vec![1.0004, 2.0])];
+    let pools: Vec<(&str, Vec<Tree>)> = vec![
+        ("BOOLEAN", vec![Tree::B(true), Tree::B(false)]),
+        ("INTEGER", vec![Tree::I(1), Tree::I(2), Tree::I(-2147483648)]),
+        ("FLOAT", vec![Tree::F(1.0001), Tree::F(1.0004), Tree::F(0.0), Tree::F(-0.0), Tree::F(f32::NAN)]),
+        ("BOOLVECTOR", vec![Tree::BV(vec![true, false]), Tree::BV(vec![true, true]), Tree::BV(vec![])]),
+        ("INTVECTOR", vec![Tree::IV(vec![1, 2]), Tree::IV(vec![1, 3]), Tree::IV(vec![])]),
+        ("FLOATVECTOR", vec![Tree::FV(vec![1.0001]), Tree::FV(vec![1.0004]), Tree::FV(vec![1.0001, 2.0])]),
+        ("CODE", code_pool.clone()),
+        ("EXEC", code_pool),
+    ];
+    let mut pop = crate::alpha::populated();
+    pop.e.clear();
+    let bases = [("empty", M::default()), ("populated", pop)];
+    for (prefix, pool) in &pools {
+        for v1 in pool {
+            for v2 in pool {
+                let def = |v: &Tree| -> Vec<Tree> {
+                    match *prefix {
+                        "CODE" => vec![Tree::ins("CODE.QUOTE"), v.clone(), Tree::ins("CODE.DEFINE")],
+                        "EXEC" => vec![Tree::ins("EXEC.DEFINE"), v.clone()],
+                        _ => vec![v.clone(), Tree::ins(&format!("{}.DEFINE", prefix))],
+                    }
+                };
+                let mut items = vec![Tree::name("X")];
+                items.extend(def(v1));
+                items.extend([Tree::ins("NAME.QUOTE"), Tree::name("X")]);
+                items.extend(def(v2));
+                items.extend([Tree::ins("NAME.QUOTE"), Tree::name("X"), Tree::ins("CODE.DEFINITION"), Tree::name("X")]);
+                let prog = Tree::L(items);
+                for (bl, base) in bases.iter() {
+                    let id = match ctx.take() {
+                        Some(id) => id,
+                        None => continue,
+                    };
+                    ctx.states += 1;
+                    let mut m = base.clone();
+                    m.e.insert(0, prog.clone());
+                    let mut verdict = Verdict::Pass;
+                    let mut at = String::new();
+                    for k in 0..40 {
+                        if m.e.is_empty() {
+                            break;
+                        }
+                        ctx.transitions += 1;
+                        let out = crate::core::step_once(real, &m);
+                        match crate::c06::judge_step(&m, &out) {
+                            Verdict::Pass => {}
+                            Verdict::Known(idk) => {
+                                if matches!(verdict, Verdict::Pass) {
+                                    verdict = Verdict::Known(idk);
+                                }
+                            }
+                            v => {
+                                at = format!(" -- at step {} in state {{{}}}", k, crate::core::trunc(&m.key(), 700));
+                                verdict = v;
+                                break;
+                            }
+                        }
+                        m = match out {
+                            Outcome::Ok(g) => g,
+                            Outcome::Panic(_) => break,
+                        };
+                    }
+                    let okey = format!("{}|{}", prefix, m.key());
+                    ctx.nontrivial_mark(&okey);
+                    ctx.record(id, &okey, verdict, || format!("{} on the {} state{}", prog.render(), bl, at));
+                }
+            }
+        }
+    }
+}
+
 pub fn run(ctx: &mut Ctx) {
     let mut real = Real::new();
     let d = if ctx.tier_thorough { 13 } else { 8 };
@@ -194,6 +272,7 @@ pub fn run(ctx: &mut Ctx) {
             acts.push(Act::Tok(Tree::L(vec![Tree::ins("CODE.QUOTE"), Tree::L(vec![Tree::name("X")])])));
             bfs(ctx, &mut real, "cross", &acts, if ctx.tier_thorough { 9 } else { 6 });
         }
+        "redefine" => redefine(ctx, &mut real),
         fam => {
             let (prefix, t) = types.iter().find(|(p, _)| *p == fam).copied().unwrap_or_else(|| panic!("unknown family {}", fam));
             let acts = alphabet(prefix, t);
